@@ -1,6 +1,8 @@
 mod blocks;
 mod bufsim;
 mod c13;
+mod c15;
+mod c16;
 mod engine;
 mod graphs;
 mod graphsim;
@@ -30,6 +32,8 @@ fn checks() -> Vec<Box<dyn Check>> {
         Box::new(rigcheck::RigCheck { prop: "C11" }),
         Box::new(rigcheck::RigCheck { prop: "C12" }),
         Box::new(c13::HdlcCheck),
+        Box::new(c15::HostileCheck),
+        Box::new(c16::SourceCheck),
     ]
 }
 
